@@ -50,6 +50,14 @@ def r1(R, repo):
     t1 = [n for n in c.nodes if n.kind == 'if' and astu.src(n.ast) == 'self.rate == 1.0']
     draws = [n for n in c.nodes if n.kind == 'stmt' and ('make_rng(' in astu.src(n.stmt) or 'rngs[self.rng_collection]()' in astu.src(n.stmt))]
     R.require(len(draws) == 1, '%s Dropout.__call__: rng draw not found' % rel)
+    # broadcast_dims are axis numbers in numpy's sense (negative ones count from the end): the mask shape has to be built by
+    # indexing (shape[dim] = 1), not by asking whether a non-negative position is "in" broadcast_dims
+    memb = [y for y in ast.walk(f.node) if isinstance(y, ast.Compare) and len(y.ops) == 1 and isinstance(y.ops[0], (ast.In, ast.NotIn)) and astu.src(y.comparators[0]).endswith('broadcast_dims')
+            and any(isinstance(g_, ast.comprehension) and isinstance(g_.iter, ast.Call) and astu.call_name(g_.iter) in ('enumerate', 'range') for a_ in astu.ancestors(y) for g_ in getattr(a_, 'generators', []))]
+    if memb:
+      R.fail(key_of(f, 'broadcast_dims accept negative axes'), (f, memb[0]), '`%s` compares non-negative positions with broadcast_dims: a negative axis (e.g. -1, as in the documentation of Dropout) never matches, so the mask is no longer shared along that axis' % astu.short(memb[0]))
+    else:
+      R.ok(key_of(f, 'broadcast_dims accept negative axes'), f)
     key = key_of(f, 'rate 0 / deterministic: returns the input itself, no key drawn')
     verdicts = []
     for env in ({'deterministic': True, 'self.rate == 0.0': False, 'self.rate == 1.0': False}, {'self.rate == 0.0': True, 'self.rate == 1.0': False, 'deterministic': False}):
